@@ -87,9 +87,9 @@ class C13(Prop):
                    "easel alistat (default, -1; afa and guessed Stockholm/Pfam), esl-weight (-g -p -b --id -f --idf), easel filter (default options), easel index, "
                    "esl-alimask (-t, -g, -p with --pfract/--pthresh/--pavg/--ppcons/--pallgapok, -g -p, --rf-is-mask, mask file, --keepins, --fmask/--gmask/--pmask files), "
                    "esl-alimanip (selection/removal/numbering options), esl-compstruct (-m -p), esl-compalign (default, -c), esl-alipid / esl-alirev / esl-weight on multi-alignment Stockholm/Pfam files, "
-                   "the --small modes of esl-reformat (pfam->afa, pfam->pfam with every residue option), esl-alimask (-t, mask file, --rf-is-mask), esl-alimanip (--seq-k/--seq-r, several records), esl-alistat (default, -1, --list/--icinfo/--rinfo/--cinfo/--pcinfo files), "
+                   "the --small modes of esl-reformat (pfam->afa, pfam->pfam with every residue option), esl-alimask (-t, mask file, --rf-is-mask, -g [--gapthresh]), esl-alimanip (--seq-k/--seq-r, several records), esl-alistat (default, -1, --list/--icinfo/--rinfo/--cinfo/--pcinfo files), "
                    "esl-alimerge (two files or --list, --outformat, --rfonly; names/rows/RF alignments)",
-                   "alphabet guessing, the non-FASTA sequence formats as input, esl-alimask --small -g/-p, esl-alimerge --small, "
+                   "alphabet guessing, the non-FASTA sequence formats as input, esl-alimask --small -p, esl-alimerge --small, "
                    "esl-reformat --id_map/hmmpgmd, esl-compalign -p, esl-construct, esl-alimap, esl-ssdraw, esl-histplot, esl-mixdchlet are not modelled "
                    "(python monitors for some, the search for all)",
                    "process and file-system behaviour of the tools, libc printf, and the python runner are trusted; a NaN the tools print is `0.0/0.0` on x86-64 (`-nan`)",
